@@ -100,3 +100,45 @@ func init() {
 	register(&PropDef{ID: "C04", Quick: 1500, Thorough: 30000, Profiles: []ProfileDef{{Name: "seq", Share: 1, Sc: scC04}}})
 	register(&PropDef{ID: "C05", Quick: 2000, Thorough: 40000, Profiles: []ProfileDef{{Name: "seq", Share: 1, Sc: scC05}}})
 }
+
+func scC01(r *Run) {
+	runMuxSeq(r, &muxSeqOpts{
+		gen: muxGen{variants: allVariants, minCalls: 50, maxCalls: 400, paramChanges: true, negativeStart: true, allowZeroDur: true},
+		oracle: func(w *muxWorld) {
+			w.obs.reportProblems(r, "grammar", "blocked", "fetch")
+			if !r.Failed() {
+				w.obs.analyse(r).oracleC01()
+			}
+		},
+	})
+}
+
+func scC02(r *Run) {
+	runMuxSeq(r, &muxSeqOpts{
+		gen: muxGen{variants: allVariants, minCalls: 50, maxCalls: 400, paramChanges: true, negativeStart: true},
+		oracle: func(w *muxWorld) {
+			w.obs.reportProblems(r, "grammar", "blocked", "fetch")
+			if !r.Failed() {
+				w.obs.analyse(r).oracleC02()
+			}
+		},
+	})
+}
+
+func scC03(r *Run) {
+	runMuxSeq(r, &muxSeqOpts{
+		gen: muxGen{variants: allVariants, minCalls: 50, maxCalls: 400, paramChanges: true, negativeStart: true},
+		oracle: func(w *muxWorld) {
+			w.obs.reportProblems(r, "grammar", "blocked", "fetch")
+			if !r.Failed() {
+				w.obs.analyse(r).oracleC03()
+			}
+		},
+	})
+}
+
+func init() {
+	register(&PropDef{ID: "C01", Quick: 3000, Thorough: 80000, Profiles: []ProfileDef{{Name: "seq", Share: 1, Sc: scC01}}})
+	register(&PropDef{ID: "C02", Quick: 3000, Thorough: 80000, Profiles: []ProfileDef{{Name: "seq", Share: 1, Sc: scC02}}})
+	register(&PropDef{ID: "C03", Quick: 3000, Thorough: 80000, Profiles: []ProfileDef{{Name: "seq", Share: 1, Sc: scC03}}})
+}
